@@ -1349,6 +1349,13 @@ class Controller:
 
         # Say that the connection is pending
         self._send_hci_command_status(hci.HCI_COMMAND_STATUS_PENDING, command.op_code)
+        if self.link.find_classic_controller(command.bd_addr) is None:
+            # Nobody answers the page
+            del self.classic_connections[command.bd_addr]
+            self.on_classic_connection_complete(
+                command.bd_addr, hci.HCI_ErrorCode.PAGE_TIMEOUT_ERROR
+            )
+            return None
         future = self.send_lmp_packet(command.bd_addr, lmp.LmpHostConnectionReq())
 
         def on_response(future: asyncio.Future[int]) -> None:
@@ -1494,6 +1501,17 @@ class Controller:
         See Bluetooth spec Vol 4, Part E - 7.1.19 Remote Name Request command
         '''
         self._send_hci_command_status(hci.HCI_ErrorCode.SUCCESS, command.op_code)
+
+        if not self.link or self.link.find_classic_controller(command.bd_addr) is None:
+            # Nobody answers the page
+            self.send_hci_packet(
+                hci.HCI_Remote_Name_Request_Complete_Event(
+                    status=hci.HCI_ErrorCode.PAGE_TIMEOUT_ERROR,
+                    bd_addr=command.bd_addr,
+                    remote_name=b'',
+                )
+            )
+            return None
 
         self.send_lmp_packet(command.bd_addr, lmp.LmpNameReq(0))
 
